@@ -684,10 +684,20 @@ Fixpoint check_run (s : st) (i : N) (ls : list (label * expect)) : N :=
          end
   end.
 
-(* a case: (initial local SETTINGS, PING SHUTDOWN payload, PING USER payload as read from the source), labels *)
-Definition diag_control (c : (sparams * N * N) * list (label * expect)) : N :=
-  let '((p0, shut, user), ls) := c in
-  if negb ((shut =? PING_SHUTDOWN) && (user =? PING_USER)) then 7
-  else check_run (init p0) 0 ls.
+(* one iteration of the poll2 loop in which nothing is pending (by far the most frequent one), written compactly: the five
+   calls, all observations made during the iteration checked at its start, no output except possibly the registration of the
+   ping_task waker *)
+Definition QI (obs : list pre) (reg : bool) : list (label * expect) :=
+  [ (LPollGoAway Ready, mkE obs (Some []) (Some FNext) []);
+    (LPollPong Ready, mkE [] (Some []) (Some FNext) []);
+    (LPollPing Ready, mkE [] (Some (if reg then [OReg WPingTask] else [])) (Some FNext) []);
+    (LSettingsAck Ready None, mkE [] (Some []) (Some FNext) []);
+    (LSettingsLocal Ready, mkE [] (Some []) (Some FNext) []) ].
 
-Definition check_control (c : (sparams * N * N) * list (label * expect)) : bool := diag_control c =? 0.
+(* a case: (initial local SETTINGS, PING SHUTDOWN payload, PING USER payload as read from the source), segments of labels *)
+Definition diag_control (c : (sparams * N * N) * list (list (label * expect))) : N :=
+  let '((p0, shut, user), segs) := c in
+  if negb ((shut =? PING_SHUTDOWN) && (user =? PING_USER)) then 7
+  else check_run (init p0) 0 (concat segs).
+
+Definition check_control (c : (sparams * N * N) * list (list (label * expect))) : bool := diag_control c =? 0.
